@@ -43,6 +43,8 @@ type Ctx struct {
 	States     map[uint64]struct{} // abstract states reached
 	Keep       map[string]interface{}
 	SimSeconds float64
+	Cleanups   []func() // run by the world after the scenario (close stores so goroutines exit)
+	Context    string   // what the scenario was doing (appended to panic reports)
 }
 
 func (c *Ctx) Fail(sig, format string, args ...interface{}) {
@@ -124,6 +126,14 @@ func execute(p *PropDef, tape *simrt.Tape, tier, variant string) *Outcome {
 		c.W = w
 		start := time.Now()
 		defer func() { c.SimSeconds = time.Since(start).Seconds() }()
+		defer func() {
+			for i := len(c.Cleanups) - 1; i >= 0; i-- {
+				func() {
+					defer func() { recover() }()
+					c.Cleanups[i]()
+				}()
+			}
+		}()
 		p.Scenario(c)
 	})
 	out := &Outcome{Res: res, Faults: c.Faults, Probes: c.Probes, Nontrivial: c.Nontrivial, Sample: c.Sample, States: c.States, SimSeconds: c.SimSeconds}
@@ -135,7 +145,7 @@ func execute(p *PropDef, tape *simrt.Tape, tier, variant string) *Outcome {
 	}
 	if !p.IgnorePanics {
 		for _, pn := range res.Panics {
-			c.Fail(p.ID+"/panic/"+panicSite(pn.Stack), "panic in task %s (node %d): %s\n%s", pn.Task, pn.Node, pn.Value, trimStack(pn.Stack))
+			c.Fail(p.ID+"/panic/"+panicSite(pn.Stack), "panic in task %s (node %d): %s\ncontext: %s\n%s", pn.Task, pn.Node, pn.Value, c.Context, trimStack(pn.Stack))
 		}
 	}
 	if p.Post != nil && out.HarnessErr == "" {
